@@ -28,6 +28,8 @@ pub enum Kind {
     TraitStatic,
     TraitDynAsyncTrait,
     ImplBlock,
+    /// `#[entrait(ref)] #[async_trait] impl TrImpl for X` behind `delegate_by = ref`
+    ImplBlockDyn,
 }
 
 pub struct Case {
@@ -213,15 +215,33 @@ fn build(spec: &Spec, negative: Option<&str>) -> (String, String) {
             }
             summary = format!("{attr} {}trait Tr{sup} {{ {msig}; }}", at.trim());
         }
+        Kind::ImplBlockDyn => {
+            let lt = if lts.is_empty() { String::new() } else { "'a, ".to_string() };
+            let msig_trait = format!("async fn m{}(&self{ps_src}){}", if lts.is_empty() { "" } else { "<'a>" }, spec.ret_decl());
+            let attr = "#[::entrait::entrait(TrImpl, delegate_by = ref)]".to_string();
+            src.push_str("pub trait HasName { fn name_ref(&self) -> &str; }\nimpl HasName for ::entrait::Impl<App> { fn name_ref(&self) -> &str { self.name.as_str() } }\n");
+            src.push_str(&format!("{attr}\n#[::async_trait::async_trait]\npub trait Tr {{\n    {msig_trait};\n}}\n"));
+            src.push_str(&format!(
+                "pub struct X;\n#[::entrait::entrait(ref)]\n#[::async_trait::async_trait]\nimpl TrImpl for X {{\n    pub async fn m<{lt}D: HasName + Sync>(deps: &D{ps_src}){} {}\n}}\n",
+                spec.ret_decl(),
+                spec.body("NOPE", hold_rc).replace("NOPE.name.as_str()", "deps.name_ref()").replace('\n', "\n    ")
+            ));
+            src.push_str("impl AsRef<dyn TrImpl<Self> + Sync> for App { fn as_ref(&self) -> &(dyn TrImpl<Self> + Sync + 'static) { &X } }\n");
+            src.push_str(&format!(
+                "pub fn run() -> Vec<String> {{\n    let mut fails = vec![];\n    let app = ::entrait::Impl::new(App {{ name: String::from(\"an\") }});\n    let _ = rt::take();\n    let direct = format!(\"{{:?}}\", rt::block_on(X::m(&app, {vals})));\n    let t_direct = rt::take();\n    let via = format!(\"{{:?}}\", rt::block_on(Tr::m(&app, {vals})));\n    rt::expect_eq(&mut fails, \"awaited result through Impl<T> vs the implementation block\", &via, &direct);\n    let t_via = rt::take();\n    rt::expect_eq(&mut fails, \"the body ran to completion exactly once (trace)\", &t_via, &t_direct);\n    if t_direct.len() != 1 {{ fails.push(String::from(\"HARNESS: direct call did not run the body once\")); }}\n    fails\n}}\n"
+            ));
+            summary = format!("{attr} #[async_trait] trait Tr {{ {msig_trait}; }} + #[entrait(ref)] #[async_trait] impl TrImpl for X");
+        }
         Kind::ImplBlock => {
             let lt = if lts.is_empty() { String::new() } else { "'a, ".to_string() };
             let msig_trait = format!("async fn m{}(&self{ps_src}){}", if lts.is_empty() { "" } else { "<'a>" }, spec.ret_decl());
             let attr = format!("#[::entrait::entrait(TrImpl, delegate_by = DelegateTr{opt})]");
+            src.push_str("pub trait HasName { fn name_ref(&self) -> &str; }\nimpl HasName for ::entrait::Impl<App> { fn name_ref(&self) -> &str { self.name.as_str() } }\n");
             src.push_str(&format!("{attr}\npub trait Tr {{\n    {msig_trait};\n}}\n"));
             src.push_str(&format!(
-                "pub struct X;\n#[::entrait::entrait]\nimpl TrImpl for X {{\n    pub async fn m<{lt}D>(deps: &D{ps_src}){} {}\n}}\n",
+                "pub struct X;\n#[::entrait::entrait]\nimpl TrImpl for X {{\n    pub async fn m<{lt}D: HasName + Sync>(deps: &D{ps_src}){} {}\n}}\n",
                 spec.ret_decl(),
-                spec.body("NOPE", hold_rc).replace('\n', "\n    ")
+                spec.body("NOPE", hold_rc).replace("NOPE.name.as_str()", "deps.name_ref()").replace('\n', "\n    ")
             ));
             src.push_str("impl DelegateTr<Self> for App { type Target = X; }\n");
             src.push_str(&witness("Tr", "m", want_send_witness, ""));
@@ -235,18 +255,18 @@ fn build(spec: &Spec, negative: Option<&str>) -> (String, String) {
 }
 
 pub fn gen_cases(t: &mut Tape) -> Vec<Case> {
-    let kind = [Kind::Fn, Kind::Fn, Kind::Mod, Kind::TraitStatic, Kind::TraitDynAsyncTrait, Kind::ImplBlock][t.choose(6)];
+    let kind = [Kind::Fn, Kind::Fn, Kind::Mod, Kind::TraitStatic, Kind::TraitDynAsyncTrait, Kind::ImplBlock, Kind::ImplBlockDyn][t.choose(7)];
     let concrete = matches!(kind, Kind::Fn) && t.chance(1, 4);
     let mut rets = vec![Ret::Unit, Ret::Owned, Ret::FromArg];
     if matches!(kind, Kind::Fn | Kind::Mod) && !concrete {
         rets.push(Ret::Gen);
     }
-    if concrete || matches!(kind, Kind::TraitStatic | Kind::TraitDynAsyncTrait) {
+    if concrete || matches!(kind, Kind::TraitStatic | Kind::TraitDynAsyncTrait | Kind::ImplBlock | Kind::ImplBlockDyn) {
         rets.push(Ret::FromDeps);
     }
     let ret = rets[t.choose(rets.len())];
     // `?Send` is meaningless together with async_trait (async_trait has its own `?Send` argument)
-    let no_send = kind != Kind::TraitDynAsyncTrait && t.chance(1, 3);
+    let no_send = !matches!(kind, Kind::TraitDynAsyncTrait | Kind::ImplBlockDyn) && t.chance(1, 3);
     let arg_tys: Vec<&'static str> = (0..4).map(|_| *t.pick(&["i32", "u8", "bool", "String"])).collect();
     let spec = Spec { arg_tys, kind, ret, no_send, n_args: t.range(1, 4), concrete };
     let mut classes: Vec<&'static str> = vec![match kind {
@@ -254,6 +274,7 @@ pub fn gen_cases(t: &mut Tape) -> Vec<Case> {
         Kind::Mod => "mod",
         Kind::TraitStatic => "trait_static",
         Kind::TraitDynAsyncTrait => "trait_dyn_async_trait",
+        Kind::ImplBlockDyn => "impl_block_dyn_async_trait",
         Kind::ImplBlock => "impl_block",
     }];
     classes.push(match ret {
@@ -266,11 +287,11 @@ pub fn gen_cases(t: &mut Tape) -> Vec<Case> {
     if no_send {
         classes.push("?Send");
     }
-    let nontrivial = matches!(ret, Ret::FromArg | Ret::FromDeps | Ret::Gen) || no_send || matches!(kind, Kind::TraitDynAsyncTrait | Kind::TraitStatic | Kind::ImplBlock);
+    let nontrivial = matches!(ret, Ret::FromArg | Ret::FromDeps | Ret::Gen) || no_send || matches!(kind, Kind::TraitDynAsyncTrait | Kind::TraitStatic | Kind::ImplBlock | Kind::ImplBlockDyn);
     let (src, summary) = build(&spec, None);
     let mut out = vec![Case { src, positive: true, summary: summary.clone(), nontrivial, classes: classes.clone() }];
     // negative probes (async_trait traits have their own Send story: not probed)
-    if kind != Kind::TraitDynAsyncTrait && t.chance(1, 3) {
+    if !matches!(kind, Kind::TraitDynAsyncTrait | Kind::ImplBlockDyn) && t.chance(1, 3) {
         if no_send {
             let (src, _) = build(&spec, Some("is_send_under_maybe_send"));
             let mut c = classes.clone();
@@ -319,7 +340,10 @@ fn check_async_trait_records(records: &[Record]) -> Result<usize, String> {
                     if has_future_rewrite {
                         return Err(format!("async_trait input: a generated `{k}` rewrote `async fn` into `impl Future` in `{}`", crate::props::c20::truncate(&crate::tok::render(&r.input), 200)));
                     }
-                    if has_async && !pending_attrs.iter().any(|b| *b) {
+                    // an inherent `impl X { .. }` is the user's own block (async_trait is moved from it to the generated trait impl)
+                    let header_end = toks[i..].iter().position(|t| matches!(t, crate::tok::Tok::Group('{', _))).map(|p| i + p).unwrap_or(toks.len());
+                    let inherent_impl = k == "impl" && !toks[i..header_end].iter().any(|t| *t == crate::tok::Tok::Ident("for".into()));
+                    if has_async && !inherent_impl && !pending_attrs.iter().any(|b| *b) {
                         return Err(format!("async_trait input: a generated `{k}` with async fns lacks the async_trait attribute, for `{}`", crate::props::c20::truncate(&crate::tok::render(&r.input), 200)));
                     }
                     // skip to the end of the item (its brace group)
